@@ -4,6 +4,7 @@ import (
 	"context"
 	"encoding/json"
 	"fmt"
+	"math"
 	"strconv"
 	"sync"
 	"time"
@@ -1037,7 +1038,10 @@ func (sd *shardDelegate) GetBroadcasts(overhead, limit int) [][]byte {
 }
 
 func (sd *shardDelegate) LocalState(join bool) []byte {
-	return sd.NodeMeta(4096) // TODO: set this to a reasonable value
+	// The push/pull state is not bound by memberlist's meta size limit, and it has to be complete: MergeRemoteState on
+	// the peer is the only place that learns which shards this instance owns. With a limit, an instance holding more
+	// shards than fit (about 46 at 4096 bytes) sent its bare name, which the peer cannot decode.
+	return sd.NodeMeta(math.MaxInt)
 }
 
 func (sd *shardDelegate) MergeRemoteState(buf []byte, join bool) {
